@@ -29,6 +29,29 @@ class Built:
     fids: dict = field(default_factory=dict)  # token file f -> pattern file id actually stored (identity of this image)
     csalt: int = 0  # added to the unit id of compressed content
 
+    def __post_init__(self):
+        raw, state = self.open, {"n": 0}
+
+        def opener():
+            """Every other open is preceded by a short-lived object on the same handle(s): used in a `with` block, dropped and
+            collected.  What a reader does when it is closed or finalised must not reach the handles its caller owns."""
+            state["n"] += 1
+            if state["n"] % 2 == 1:
+                import gc
+                try:
+                    tmp = raw()
+                    if hasattr(tmp, "__enter__"):
+                        with tmp:
+                            tmp.read(1)
+                    elif hasattr(tmp, "close"):
+                        tmp.close()
+                    del tmp
+                    gc.collect()
+                except Exception:  # noqa: BLE001   (whatever is wrong with opening shows on the real open below)
+                    pass
+            return raw()
+        self.open = opener
+
     def geo(self, nfiles=1):
         g = {"cellB": self.cell, "cb": self.cb, "stride": self.stride or self.cb * self.cell,
              "bases": [self.bases.get(f, 0) for f in range(nfiles)], "pbase": self.parent_base}
